@@ -284,24 +284,38 @@ def c17_h4(ctx):
                     dest = s["place"]
                     uses_ok = False
                     if not dest["proj"]:
-                        tt = f.blocks[b]["term"]
-                        if tt["k"] == "call":
-                            d, r, _ = ctx.prog.callee_of(tt)
-                            cal = r or d or ""
-                            g = ctx.prog.by_norm.get(cal)
-                            if cal.endswith("::handle_fault") and any(a.get("k") in ("move", "copy") and a["place"]["local"] == dest["local"] for a in tt["args"]):
-                                uses_ok = True
-                            elif g is not None and g.norm in fw and fw[g.norm] < len(tt["args"]) and tt["args"][fw[g.norm]].get("k") in ("move", "copy") and _root_local(f, tt["args"][fw[g.norm]]["place"]["local"]) == dest["local"]:
-                                uses_ok = True  # handed to a method that passes it on to handle_fault
-                            elif cal.endswith("::eq") or cal.endswith("::ne"):
-                                uses_ok = True
-                        # comparisons: the constant is borrowed for PartialEq in a later block
-                        if not uses_ok:
-                            from common import local_uses
+                        from common import local_uses
 
-                            us = local_uses(f, dest["local"])
-                            if us and all(k == "stmt" and u["rv"]["k"] == "ref" for k, _, _, u in us):
-                                uses_ok = True
+                        def only_handler(l, depth=0):
+                            """Every use of the constant hands it (possibly through moves/copies) to
+                            handle_fault / a forwarder, or borrows it for a comparison."""
+                            if depth > 6:
+                                return False
+                            us = local_uses(f, l)
+                            if not us:
+                                return depth > 0
+                            for k, ub, uj, u in us:
+                                if k == "stmt" and u["rv"]["k"] == "ref":
+                                    continue
+                                if k == "stmt" and u["rv"]["k"] == "use" and not u["place"]["proj"]:
+                                    if not only_handler(u["place"]["local"], depth + 1):
+                                        return False
+                                    continue
+                                if k == "call":
+                                    d, r, _ = ctx.prog.callee_of(u)
+                                    cal = r or d or ""
+                                    g = ctx.prog.by_norm.get(cal)
+                                    pos = [i for i, a in enumerate(u["args"]) if a.get("k") in ("move", "copy") and a["place"]["local"] == l]
+                                    if cal.endswith("::handle_fault") and pos == [1]:
+                                        continue
+                                    if g is not None and g.norm in fw and pos == [fw[g.norm]]:
+                                        continue
+                                    if cal.endswith("::eq") or cal.endswith("::ne"):
+                                        continue
+                                return False
+                            return True
+
+                        uses_ok = only_handler(dest["local"])
                     key = "%s::%s:Condition::%s" % (nm, f.name, var)
                     if not uses_ok:
                         yield bad("C17-H4", key, at(f, s["span"]["line"]), "Condition::%s constructed outside a handle_fault call / comparison (a limit fault declared without the handler)" % var)
